@@ -517,10 +517,16 @@ def _slice(g, flavour):
         axes = sorted(axes)
     starts, ends, steps = [], [], []
     cls = set()
-    for a in axes:
+    for i, a in enumerate(axes):
         d = x.shape[a]
         k = 6 if flavour == 2 else 3
         mode = g.pick(["full"] * k + ["start", "short", "step", "reverse"] + ["full"] * k)
+        if mode in ("step", "reverse") and d < 2:
+            # a stride only shows on an axis with at least two elements: move to such an axis when there is one
+            alt = [b for b in range(rank) if b not in axes and x.shape[b] >= 2]
+            if alt:
+                a = axes[i] = alt[0]
+                d = x.shape[a]
         if mode == "full":
             s, st = 0, 1
             e = g.pick([d, d, d + 1, d + 5, INT64_MAX, INT64_MAX, 2**31 - 1])
@@ -535,7 +541,7 @@ def _slice(g, flavour):
             e = g.pick([d - 1, 1, -1, 0, -d - 1])
             cls.add("end_eq" if e == d else "end_lt")
         elif mode == "step":
-            s, e, st = 0, g.pick([d, INT64_MAX]), g.pick([2, 3])
+            s, e, st = 0, g.pick([INT64_MAX, d, INT64_MAX]), g.pick([2, 3])  # (Hypothesis favours the first element: the open end is what exporters write)
             cls.add("step_gt1")
         else:
             s, e, st = g.pick([-1, d - 1, d, INT64_MAX]), g.pick([INT64_MIN, -d - 1, -d - 2]), -1
@@ -615,7 +621,7 @@ def _reshape(g):
     if _rare(g, 2):
         g.set_opset(13)
     dt = g.pick([F32, I64, F64, F32])
-    zero = _rare(g, 3, 20)
+    zero = _rare(g, 5, 20)
     if zero:
         shape = g.pick([(2, 0), (0, 3), (2, 0, 3)])
         g.features.add(f"{tag}:zero_size")
@@ -631,6 +637,8 @@ def _reshape(g):
         # zero-size data and a run-time target WITHOUT a literal 0: [-1, k] with k a non-zero dim, so that -1 resolves to 0 and the
         # known output shape has its 0 at an index where the input has none (the materialised constant then needs allowzero=1)
         form = g.pick(["shape_of_x", "minus1_zero", "minus1_zero"])
+    elif zero and g.chance(4):
+        form = "minus1_zero"
     tgt = None
     force_allowzero = False
     if form == "shape_of_y":
@@ -689,7 +697,9 @@ def _reshape(g):
     elif form == "minus1_zero":
         nz = [d for d in shape if d != 0] or [1]
         k = g.pick(nz + [1, 2])
-        parts = [_i64(g, [-1]), _i64(g, [k])] if g.chance(6) else [_i64(g, [k]), _i64(g, [-1])]
+        # mostly the orientation in which the resulting 0 sits at an index where the input dim is not 0 ("0 = copy" would be wrong there)
+        first = (shape[0] != 0) if g.chance(8) else (shape[0] == 0)
+        parts = [_i64(g, [-1]), _i64(g, [k])] if first else [_i64(g, [k]), _i64(g, [-1])]
         t = g.emit("Concat", parts, axis=0)
         tgt = t[0] if t else None
     elif form == "const_concat":
